@@ -304,8 +304,12 @@ class UnifiedRTFEncoder(EncodingStrategy):
                 parts.append(title)
                 parts.append("\n")
 
-            # Subline
-            if is_first and document.rtf_subline:
+            # Subline (follows the title's page_title placement, as in tables)
+            if document.rtf_subline and (
+                show_title_on_all
+                or (document.rtf_page.page_title == "first" and is_first)
+                or (document.rtf_page.page_title == "last" and is_last)
+            ):
                 parts.append(
                     self.encoding_service.encode_subline(
                         document.rtf_subline, method="line"
